@@ -22,7 +22,7 @@ from ast import literal_eval
 
 from . import core, odserver, simbus, simloop
 
-PDO_RELEVANT = lambda i: i in (0x1c12, 0x1c13) or 0x1600 <= i < 0x1800 or 0x1a00 <= i < 0x1c00
+PDO_RELEVANT = lambda i: i in (0x1c12, 0x1c13) or 0x1400 <= i < 0x1c00     # parameter, mapping objects
 
 
 def load_records():
